@@ -4,6 +4,7 @@ import (
 	"context"
 	"encoding/json"
 	"fmt"
+	"github.com/resonatehq/resonate/pkg/promise"
 	"net/url"
 	"os"
 	"sort"
@@ -523,23 +524,39 @@ func (g *gen) cursor(pfx string) scenario {
 		enc(&t_api.Cursor[t_api.SearchPromisesRequest]{Next: &t_api.SearchPromisesRequest{Id: "*", Limit: -1, SortId: &neg}}),
 		enc(&t_api.Cursor[t_api.SearchPromisesRequest]{Next: &t_api.SearchPromisesRequest{Id: "*", Limit: 1 << 30, SortId: &zero}}),
 		enc(&t_api.Cursor[t_api.SearchPromisesRequest]{Next: &t_api.SearchPromisesRequest{Id: "*", Limit: 5, Tags: map[string]string{"": "x", "a.b": "c", "a[": "d"}}}),
+		// exactly one field out of range, everything else as the kernel wants it
+		enc(&t_api.Cursor[t_api.SearchPromisesRequest]{Next: &t_api.SearchPromisesRequest{Id: "*", States: []promise.State{promise.Pending}, Tags: map[string]string{}, Limit: 0}}),
+		enc(&t_api.Cursor[t_api.SearchPromisesRequest]{Next: &t_api.SearchPromisesRequest{Id: "*", States: []promise.State{promise.Pending}, Tags: map[string]string{}, Limit: 101}}),
+		enc(&t_api.Cursor[t_api.SearchPromisesRequest]{Next: &t_api.SearchPromisesRequest{Id: "*", States: []promise.State{promise.Pending}, Tags: map[string]string{}, Limit: -1}}),
+		enc(&t_api.Cursor[t_api.SearchPromisesRequest]{Next: &t_api.SearchPromisesRequest{Id: "*", States: []promise.State{}, Tags: map[string]string{}, Limit: 5}}),
+		enc(&t_api.Cursor[t_api.SearchPromisesRequest]{Next: &t_api.SearchPromisesRequest{Id: "*", States: []promise.State{promise.Pending}, Tags: nil, Limit: 5}}),
+		enc(&t_api.Cursor[t_api.SearchPromisesRequest]{Next: &t_api.SearchPromisesRequest{Id: "", States: []promise.State{promise.Pending}, Tags: map[string]string{}, Limit: 5}}),
+		enc(&t_api.Cursor[t_api.SearchSchedulesRequest]{Next: &t_api.SearchSchedulesRequest{Id: "*", Tags: map[string]string{}, Limit: 0}}),
+		enc(&t_api.Cursor[t_api.SearchSchedulesRequest]{Next: &t_api.SearchSchedulesRequest{Id: "*", Tags: map[string]string{}, Limit: 101}}),
+		enc(&t_api.Cursor[t_api.SearchSchedulesRequest]{Next: &t_api.SearchSchedulesRequest{Id: "*", Tags: nil, Limit: 5}}),
+		enc(&t_api.Cursor[t_api.SearchSchedulesRequest]{Next: &t_api.SearchSchedulesRequest{Id: "", Tags: map[string]string{}, Limit: 5}}),
 		enc(&t_api.Cursor[t_api.SearchSchedulesRequest]{Next: nil}),
 		enc(&t_api.Cursor[t_api.SearchSchedulesRequest]{Next: &t_api.SearchSchedulesRequest{Id: "", Limit: 0}}),
 		"", "x", "a.b.c", "eyJhbGciOiJub25lIn0.e30.", strings.Repeat("A", 70000),
 	}
-	tok := g.pick(forged, "token")
-	wellSigned := strings.Count(tok, ".") == 2 && len(tok) > 40 && len(tok) < 5000
-	if rapid.IntRange(0, 3).Draw(g.t, "damage") == 0 && len(tok) > 10 {
-		b := []byte(tok)
-		b[len(b)-3] ^= 1
-		tok, wellSigned = string(b), false
-	}
 	path := g.pick([]string{"/promises", "/schedules"}, "which")
-	st := step{HTTPReq: HTTPReq{Method: "GET", Path: path + "?cursor=" + url.QueryEscape(tok)}, mutation: "cursor=" + truncate(tok, 40), noTrace: true}
-	if !wellSigned && tok != "" {
-		st.invalid = true // a cursor whose signature does not verify is rejected
+	for i := 0; i < 3; i++ {
+		tok := g.pick(forged, "token")
+		wellSigned := strings.Count(tok, ".") == 2 && len(tok) > 40 && len(tok) < 5000
+		if rapid.IntRange(0, 5).Draw(g.t, "damage") == 0 && len(tok) > 10 {
+			b := []byte(tok)
+			b[len(b)-3] ^= 1
+			tok, wellSigned = string(b), false
+		}
+		if i > 0 {
+			path = g.pick([]string{"/promises", "/schedules"}, "which")
+		}
+		st := step{HTTPReq: HTTPReq{Method: "GET", Path: path + "?cursor=" + url.QueryEscape(tok)}, mutation: "cursor=" + truncate(tok, 40), noTrace: true}
+		if !wellSigned && tok != "" {
+			st.invalid = true // a cursor whose signature does not verify is rejected
+		}
+		sc.steps = append(sc.steps, st)
 	}
-	sc.steps = append(sc.steps, st)
 	// odd query strings
 	q := g.pick([]string{"?id=", "?id=*&limit=-1", "?id=*&limit=101", "?id=*&limit=abc", "?id=*&state=nope", "?id=%&state=pending", "?id=*&tags[]=x", "?id=*&tags[a.b]=c", "?id=*&tags[%5B]=c", "?id=*&tags['$']=c", "?id=*&limit=0", "?id=" + url.QueryEscape(strings.Repeat("*a", 3000)), "?limit=5"}, "query")
 	sc.steps = append(sc.steps, step{HTTPReq: HTTPReq{Method: "GET", Path: path + q}, mutation: "query=" + truncate(q, 40), noTrace: true})
